@@ -2458,3 +2458,42 @@ def replication_frame(ctx, rule):
                             f'{cname}.{acc} evaluates to {shown}; documented: {w!r}. The simulator takes its horizon, warm-up time and start time from these accessors, '
                             f'so a replication that does not start at zero ends (or warms up) at the wrong time', where=f'{cname}.{acc}')
     ctx.floor(rule, 'time accessors evaluated', n, 10)
+
+
+# ------------------------------------------------------------------------------------------------ exceptions whose text is computed lazily
+def exception_text_total(ctx, rule):
+    """The error strategies log / print `str(e)` of what a failed event raised, from inside their except-blocks.  An exception class of the
+    package that renders its text lazily (`__str__` / `__repr__` formatting the objects it carries) moves user code -- the `__str__` of the
+    event's target, the `repr` of its arguments -- into those except-blocks: if it fails there, the failure escapes the strategy."""
+    prog = ctx.prog
+    ctx.rule(rule, 'exception classes of the package carry their message as computed when raised: no __str__ / __repr__ that formats carried objects lazily')
+    BUILTIN = {'Exception', 'BaseException', 'ValueError', 'TypeError', 'RuntimeError', 'KeyError', 'LookupError', 'ArithmeticError', 'AttributeError', 'IndexError',
+               'OSError', 'NotImplementedError', 'AssertionError', 'StopIteration'}
+
+    def is_exc(c, seen=()):
+        ci = prog.classes.get(c)
+        if ci is None:
+            return c in BUILTIN or c.endswith('Error') or c.endswith('Exception')
+        return any(is_exc(unparse(b).split('.')[-1], seen + (c,)) for b in ci.node.bases if unparse(b).split('.')[-1] not in seen)
+    n = 0
+    for cname, ci in sorted(prog.classes.items()):
+        if not is_exc(cname):
+            continue
+        n += 1
+        for m in ('__str__', '__repr__', '__format__'):
+            fn = ci.methods.get(m)
+            if fn is None:
+                continue
+            lazy = [x for x in walk_shallow(fn) if isinstance(x, ast.FormattedValue) or (isinstance(x, ast.Call) and unparse(x.func) in ('str', 'repr', 'format'))
+                    or (isinstance(x, ast.Call) and isinstance(x.func, ast.Attribute) and x.func.attr == 'format')
+                    or (isinstance(x, ast.BinOp) and isinstance(x.op, ast.Mod) and isinstance(x.left, ast.Constant) and isinstance(x.left.value, str))]
+            lazy = [x for x in lazy if any(isinstance(y, (ast.Attribute, ast.Name)) and not (isinstance(y, ast.Name) and y.id in ('str', 'repr', 'format', 'self'))
+                                           for y in ast.walk(x))]
+            ctx.ob(rule, f'{cname}.{m}', not lazy, sample=f'{cname}.{m} formats carried objects when called: {bool(lazy)}')
+            if lazy:
+                ctx.finding(rule, f'{cname}.{m}:lazy-text', ci, lazy[0],
+                            f'{cname}.{m} formats the objects the exception carries (`{short(lazy[0], 50)}`) each time the text is asked for: the simulator asks for it inside '
+                            f'the except-blocks of its error strategies (log / print of str(e)), so a target or argument whose own __str__ / __repr__ fails makes the '
+                            f'strategy itself fail -- the run thread dies in state STARTED (or step() leaks an unrelated exception) instead of continuing, pausing or ending',
+                            where=f'{cname}.{m}')
+    ctx.note(f'{rule}: {n} exception classes of the package examined')
